@@ -118,6 +118,25 @@ func checkSpendLoopExits(c *Ctx, pr *prioRoles, rule string) {
 							ok = true // input closed
 							return
 						}
+						// the comma-ok was handed to a helper that answers false only when it is false
+						// (more, ok := dsc.forward(item, opened, priority); if !ok { return })
+						if okVal != nil && (e2.Succ == 0) == neg {
+							resIdx := 0
+							cv := base
+							if ex, isEx := cv.(*ssa.Extract); isEx {
+								cv, resIdx = ex.Tuple, ex.Index
+							}
+							if hc, isCall := cv.(*ssa.Call); isCall {
+								if h := p.Callee(hc); h != nil && p.IsProduct(h) {
+									for i, a := range hc.Call.Args {
+										if a == ssa.Value(okVal) && i < len(h.Params) && p.falseOnlyWhenParamFalse(h, resIdx, h.Params[i]) {
+											ok = true // input closed
+											return
+										}
+									}
+								}
+							}
+						}
 						if cm := p.NormCmp(iff.Cond, e2.Succ == 0); cm != nil && cm.LC == 0 && cm.RC == 0 {
 							l, r := deepStrip(cm.L), deepStrip(cm.R)
 							isTactic := func(x *Sym) bool {
@@ -773,6 +792,9 @@ func checkCtorRefusals(c *Ctx, p *Prog, d *Disc, rule string) {
 		return
 	}
 	for _, ctor := range d.Ctors {
+		if obj, _ := ctor.Object().(*types.Func); obj == nil || !obj.Exported() {
+			continue // a private builder: part of the exported constructor's scope
+		}
 		scope := map[*ssa.Function]bool{ctor: true}
 		changed := true
 		for changed {
@@ -881,4 +903,136 @@ func (p *Prog) discOfCtor(fn *ssa.Function) *Disc {
 		}
 	}
 	return nil
+}
+
+// checkHandlersStarted (C02/X13): the handler goroutines of a simplified discipline are started on
+// every successful construction: the loop that holds their go statement lies before every
+// success return of the function it is in, and that function is called before every success return
+// of its callers up to the constructor (or is itself a goroutine entry the constructor starts).
+func checkHandlersStarted(c *Ctx, p *Prog, rule string) {
+	n := 0
+	for _, d := range p.Discs() {
+		for _, e := range d.Gos {
+			if !e.Multi || e.Stmt == nil {
+				continue
+			}
+			n++
+			key := fmt.Sprintf("%s:%s#handlers-started", p.Name, d.Name)
+			var problems []string
+			isEntry := func(fn *ssa.Function) bool {
+				for _, e2 := range d.Gos {
+					if e2.Entry == fn && !e2.Multi {
+						return true
+					}
+				}
+				return false
+			}
+			isCtor := func(fn *ssa.Function) bool {
+				for _, ct := range d.Ctors {
+					if ct == fn {
+						return true
+					}
+				}
+				return false
+			}
+			successReturnsDominated := func(fn *ssa.Function, anchor *ssa.BasicBlock, what string) {
+				for _, b := range fn.Blocks {
+					ret, ok := b.Instrs[len(b.Instrs)-1].(*ssa.Return)
+					if !ok || b == fn.Recover {
+						continue
+					}
+					if len(ret.Results) > 0 && p.provablyError(ret.Results[len(ret.Results)-1], b) {
+						continue
+					}
+					if !anchor.Dominates(b) {
+						problems = append(problems, "the return at "+p.InstrPos(ret)+" of "+fn.Name()+" is reached without "+what)
+					}
+				}
+			}
+			// anchor in the spawning function: the outermost loop header around the go statement
+			fn := p.Norm(e.Stmt.Parent())
+			anchor := e.Stmt.Block()
+			for _, comp := range sccs(fn.Blocks, blockSet(fn.Blocks)) {
+				set := blockSet(comp)
+				if !set[e.Stmt.Block()] {
+					continue
+				}
+				// the statement `for ... { go handler() }` is reached: the block outside the loop that
+				// dominates its entry (the pre-test of a rotated range loop belongs to the statement)
+				for _, b := range comp {
+					for _, pb := range b.Preds {
+						if !set[pb] {
+							for x := b.Idom(); x != nil; x = x.Idom() {
+								if !set[x] {
+									if anchor == e.Stmt.Block() || x.Dominates(anchor) {
+										anchor = x
+									}
+									break
+								}
+							}
+						}
+					}
+				}
+			}
+			successReturnsDominated(fn, anchor, "having started the handlers")
+			cur := fn
+			for depth := 0; depth < 4 && !isCtor(cur) && !isEntry(cur); depth++ {
+				sites := p.CallSites(cur)
+				if len(sites) == 0 {
+					problems = append(problems, cur.Name()+", which starts the handlers, is never called")
+					break
+				}
+				var next *ssa.Function
+				for _, cs := range sites {
+					if _, isGo := cs.(*ssa.Go); isGo {
+						continue
+					}
+					caller := p.Norm(cs.Parent())
+					successReturnsDominated(caller, cs.Block(), "having called "+cur.Name()+" (which starts the handlers)")
+					next = caller
+				}
+				if next == nil {
+					break
+				}
+				cur = next
+			}
+			c.R.Check(len(problems) == 0, rule, key, p.InstrPos(e.Stmt), "handlers started on every successful construction", strings.Join(dedup(problems), "; ")+": the discipline is created without (all of) its handlers and delivered items are never handled")
+		}
+	}
+	if n == 0 {
+		c.R.Fail(rule, p.Name+"#handlers-started", "-", "UNRESOLVED-ANCHOR: no handler goroutines found")
+	}
+}
+
+// falseOnlyWhenParamFalse: result #resIdx of h is the constant false only on paths behind the false
+// edge of a test of the boolean parameter par, and otherwise the constant true.
+func (p *Prog) falseOnlyWhenParamFalse(h *ssa.Function, resIdx int, par *ssa.Parameter) bool {
+	seenFalse := false
+	for _, b := range h.Blocks {
+		ret, ok := b.Instrs[len(b.Instrs)-1].(*ssa.Return)
+		if !ok || b == h.Recover {
+			continue
+		}
+		vals := returnedValues(ret)
+		if resIdx >= len(vals) {
+			return false
+		}
+		cv, isC := vals[resIdx].(*ssa.Const)
+		if !isC {
+			return false
+		}
+		if constString(cv) == "true" {
+			continue
+		}
+		seenFalse = true
+		behind := AllPathsPass(b, func(e CondEdge) bool {
+			iff := e.From.Instrs[len(e.From.Instrs)-1].(*ssa.If)
+			base, neg := condOf(iff.Cond)
+			return base == ssa.Value(par) && (e.Succ == 0) == neg
+		})
+		if !behind {
+			return false
+		}
+	}
+	return seenFalse
 }
